@@ -56,6 +56,7 @@ var c03 struct {
 	aOnce             bool
 	aFired            bool
 	commitFaults      int // failed Commit calls so far
+	fired             int // injected failures so far
 	partialFirstFails bool
 	targets           [2]*c03Target
 	all               []*c03Delivery
@@ -65,12 +66,17 @@ var c03 struct {
 
 func c03Fail(site int) bool {
 	if c03.aOnce && c03.aFired {
-		return site == c03.fB
+		if site == c03.fB {
+			c03.fired++
+			return true
+		}
+		return false
 	}
 	if verifOr(site == c03.fA, site == c03.fB) {
 		if site == c03.fA {
 			c03.aFired = true
 		}
+		c03.fired++
 		return true
 	}
 	return false
@@ -397,7 +403,7 @@ type c03Cfg struct {
 func c03Setup(cfg c03Cfg) *Endpoint {
 	c03.all = nil
 	c03.permits = map[string]int{}
-	c03.aFired, c03.commitFaults = false, 0
+	c03.aFired, c03.commitFaults, c03.fired = false, 0, 0
 	c03.targets = [2]*c03Target{{name: "t0", id: 0, partial: cfg.partial}, {name: "t1", id: 1}}
 	c03Chk, c03Mod = &c03Check{}, &c03Modifier{}
 	if !verifSymbolic() {
@@ -601,6 +607,8 @@ func harness_C03_session() {
 	s := c03NewSession(endp)
 	m := &c03Mirror{open: true}
 	var hist []string
+	firedAtTxnStart := 0 // injected failures before the current transaction began
+	badSender := false   // the accepted MAIL of the current transaction carries an unacceptable sender (deferred mode)
 
 	for step := 0; step < k && m.open; step++ {
 		op := nondetInt(fmt.Sprintf("op%d", step), 0, nOps-1)
@@ -622,6 +630,7 @@ func harness_C03_session() {
 			}
 		}
 		faultsBefore := c03.commitFaults
+		firedBefore := c03.fired
 
 		r := c03Step(s, m, lmtp, op)
 		if r.skipped {
@@ -629,7 +638,13 @@ func harness_C03_session() {
 		}
 
 		switch op {
+		case opRset:
+			firedAtTxnStart = c03.fired
 		case opMailOK, opMailUpper, opMailBad:
+			if r.err == nil {
+				firedAtTxnStart = firedBefore // failures of this MAIL itself belong to the new transaction
+				badSender = op == opMailBad
+			}
 			if authReq && !wasAuthed {
 				if r.err == nil {
 					verifFail("C03.mail-accepted-before-auth")
@@ -642,7 +657,16 @@ func harness_C03_session() {
 			if r.err == nil {
 				verifFail("C03.refusable-recipient-accepted")
 			}
+		case opRcptT0, opRcptT1, opRcptBoth:
+			// a routable recipient is refused only for a cause that belongs to
+			// this transaction: a failure injected since its MAIL command
+			_ = firedBefore
+			if r.err != nil && c03.fired == firedAtTxnStart && !badSender && !(authReq && !wasAuthed) {
+				verifLog("trace", strings.Join(hist, " "), "reply", r.err.Error())
+				verifFail("C03.recipient-refused-with-a-stale-reply")
+			}
 		case opData, opDataBadHeader, opDataLoop:
+			firedAtTxnStart = c03.fired
 			ret, statuses := r.err, r.statuses
 			committedNow := 0
 			for _, d := range c03.all {
